@@ -110,7 +110,7 @@ fn main() {
                 let prog = gen(&mut rng, d, nfun, Some(0));
                 let det = rng.chance(1, 3);
                 for _ in 0..3 {
-                    let input = gen_input(&mut rng, 5);
+                    let input = gen_input_wide(&mut rng, 5);
                     emit(&Case { lim: None, det, input, env: env.clone(), prog: prog.clone() }, &mut w);
                     i += 1;
                 }
